@@ -328,6 +328,9 @@ def fresh_like(v, name):
         raise Unsupported(f"list {name} modified inside a loop that is cut by an invariant")
     if isinstance(v, (ClsV, FuncV)):
         return v
+    if type(v).__name__ == "CArr":
+        # pointer: the offset changes; the pointed-to array is havocked separately when stored to
+        return type(v)(v.arr, v.n, fresh(name + ".off", I), v.name)
     raise Unsupported(f"havoc of {v!r}")
 
 
